@@ -43,11 +43,16 @@ pub enum DAct {
         #[serde(default)]
         defer: bool,
     },
+    /// c: the QoS announced this time is compatible with the local endpoint (None: the class of the endpoint table)
     Announce {
         e: u8,
         #[serde(default)]
+        c: Option<bool>,
+        #[serde(default)]
         defer: bool,
     },
+    /// the application creates its DataWriter ("w") / DataReader ("r") now (runs with `late`)
+    CreateLocal { side: String },
     DisposeE {
         e: u8,
         #[serde(default)]
@@ -60,6 +65,9 @@ pub enum DAct {
 #[derive(Clone, Debug, Serialize, Deserialize)]
 pub struct DRunSpec {
     pub acts: Vec<DAct>,
+    /// the local writer and reader do not exist until a CreateLocal action
+    #[serde(default)]
+    pub late: bool,
 }
 
 const NE: u8 = 8;
@@ -90,7 +98,16 @@ fn local_qos() -> QosPolicies {
 }
 /// QoS of remote endpoint e: compatible = same as local; incompatible reader requests TransientLocal
 /// durability from our Volatile writer; incompatible writer offers BestEffort to our Reliable reader
-fn remote_qos(e: u8) -> QosPolicies {
+fn remote_qos(e: u8, c: bool) -> QosPolicies {
+    if !c {
+        // incompatible: a reader that requests TransientLocal from our Volatile writer, a writer that offers BestEffort to
+        // our Reliable reader (for the endpoints whose announcements may change: the other values change as well)
+        return if IS_READER[e as usize] {
+            QosPolicyBuilder::new().reliability(Reliability::Reliable { max_blocking_time: Duration::from_millis(100) }).durability(Durability::TransientLocal).build()
+        } else {
+            QosPolicyBuilder::new().reliability(Reliability::BestEffort).durability(Durability::Volatile).build()
+        };
+    }
     if e == 7 {
         // offers more than the local reader asks for; max_blocking_time is not part of the request/offered rule
         QosPolicyBuilder::new()
@@ -105,12 +122,8 @@ fn remote_qos(e: u8) -> QosPolicies {
             .durability(Durability::Volatile)
             .latency_budget(LatencyBudget { duration: Duration::from_secs(5) })
             .build()
-    } else if COMPAT[e as usize] {
-        local_qos()
-    } else if IS_READER[e as usize] {
-        QosPolicyBuilder::new().reliability(Reliability::Reliable { max_blocking_time: Duration::from_millis(100) }).durability(Durability::TransientLocal).build()
     } else {
-        QosPolicyBuilder::new().reliability(Reliability::BestEffort).durability(Durability::Volatile).build()
+        local_qos()
     }
 }
 
@@ -175,10 +188,10 @@ fn flush(rig: &mut DiscRig, waiting: &mut std::collections::VecDeque<Value>, out
 
 pub fn run_one(run_no: usize, spec: &DRunSpec, out: &mut Vec<Value>) -> Vec<Vec<u8>> {
     let q = local_qos();
-    let mut rig = DiscRig::new(&q, &q);
+    let mut rig = if spec.late { DiscRig::new_late(&q, &q) } else { DiscRig::new(&q, &q) };
     rig.defer = true; // the driver decides when the event loop runs
     let mut waiting: std::collections::VecDeque<Value> = Default::default();
-    out.push(json!({"ev":"Reset","run":run_no}));
+    out.push(json!({"ev":"Reset","run":run_no,"late":spec.late}));
     // an event whose notification is deferred: line (with the tables as they are now) waits for the event loop
     macro_rules! notified {
         ($ev:expr, $defer:expr) => {{
@@ -217,14 +230,27 @@ pub fn run_one(run_no: usize, spec: &DRunSpec, out: &mut Vec<Value>) -> Vec<Vec<
                 rig.dispose_participant(prefix(*p));
                 notified!(json!({"ev":"DisposeP","p":p}), *defer);
             }
-            DAct::Announce { e, defer } => {
+            DAct::Announce { e, c, defer } => {
                 let topic = if ON_TOPIC[*e as usize] { "T" } else { "other" };
+                let c = c.unwrap_or(COMPAT[*e as usize]);
                 if IS_READER[*e as usize] {
-                    rig.announce_reader(eguid(*e), topic, &remote_qos(*e));
+                    rig.announce_reader(eguid(*e), topic, &remote_qos(*e, c));
                 } else {
-                    rig.announce_writer(eguid(*e), topic, &remote_qos(*e));
+                    rig.announce_writer(eguid(*e), topic, &remote_qos(*e, c));
                 }
-                notified!(json!({"ev":"Announce","e":e}), *defer);
+                notified!(json!({"ev":"Announce","e":e,"c":c}), *defer);
+            }
+            DAct::CreateLocal { side } => {
+                // the application's call reaches the event loop through its own channel, after what is already waiting
+                flush(&mut rig, &mut waiting, out);
+                if side == "w" {
+                    rig.create_local_writer();
+                } else {
+                    rig.create_local_reader();
+                }
+                let t = observe_tables(&mut rig);
+                let m = observe_matching(&mut rig);
+                out.push(merge(merge(json!({"ev":"CreateLocal","side":side}), t), m));
             }
             DAct::DisposeE { e, defer } => {
                 if IS_READER[*e as usize] {
@@ -251,8 +277,21 @@ pub fn random_run(rng: &mut StdRng, n: usize) -> DRunSpec {
     let mut last = [0i64; 3];
     let mut lease = [60_000i64; 3];
     let mut now = 0i64;
+    // one run in three creates its local endpoints late: have[0] writer, have[1] reader
+    let late = rng.gen_range(0..3) == 0;
+    let mut have = [!late, !late];
+    let mut lastc = [true, true];
+    // (the last QoS announced by 7 / 8 stays the one in force once the local endpoint exists)
     for _ in 0..n {
         let p = rng.gen_range(1..=2u8);
+        if late && rng.gen_range(0..12) == 0 {
+            let i = rng.gen_range(0..2);
+            if !have[i] {
+                have[i] = true;
+                acts.push(DAct::CreateLocal { side: ["w", "r"][i].into() });
+                continue;
+            }
+        }
         match rng.gen_range(0..100) {
             0..=19 => {
                 let l = LEASES[rng.gen_range(0..LEASES.len())];
@@ -295,12 +334,23 @@ pub fn random_run(rng: &mut StdRng, n: usize) -> DRunSpec {
                     last[o] = now;
                     lease[o] = if l < 0 { 60_000 } else { l };
                 }
-                acts.push(DAct::Announce { e, defer: rng.gen_bool(0.3) });
+                // 7 and 8 may change their QoS from one announcement to the next while the local endpoint they concern does
+                // not exist; afterwards they stay with what they announced last
+                let c = if e == 7 || e == 8 {
+                    let i = (e - 7) as usize;
+                    if !have[1 - i] {
+                        lastc[i] = rng.gen_bool(0.6);
+                    }
+                    Some(lastc[i])
+                } else {
+                    None
+                };
+                acts.push(DAct::Announce { e, c, defer: rng.gen_bool(0.3) });
             }
             _ => acts.push(DAct::DisposeE { e: rng.gen_range(1..=NE), defer: rng.gen_bool(0.3) }),
         }
     }
-    DRunSpec { acts }
+    DRunSpec { acts, late }
 }
 
 pub fn main(mode: &str, opt: &HashMap<String, String>) -> i32 {
